@@ -163,11 +163,30 @@ Section O13.
     | None => false
     end.
 
+  (* "touches nothing else", the identity of the destination's jobs: the state point file of every job that exists
+     in the destination is byte-identical after the call — whatever the entry point (Job.sync / sync_jobs also pair
+     jobs with DIFFERENT state points), document strategy (DocSync.COPY included), file strategy and outcome
+     (licensed by C13_statepoint_untouched / C13_other_jobs_untouched) *)
+  Definition statepoints_kept (i : sinput) (o : sobs) : bool :=
+    forallb (fun kn => match snd kn with
+                       | Dir dd =>
+                           match alookup FN_SP dd with
+                           | Some n =>
+                               match job_dir (fst kn) (p_ws (ob_dst o)) with
+                               | Some dd' => node_eqb frepr (Some n) (alookup FN_SP dd')
+                               | None => false
+                               end
+                           | None => true
+                           end
+                       | File _ _ => true
+                       end) (p_ws (i_dst i)).
+
   Definition holds_C13 (c : scase) : bool :=
     let i := c_in c in
     let o := c_obs c in
     ob_rest_ok o
     && proj_eqb frepr (i_src i) (ob_src o)                        (* the source is byte-identical *)
+    && statepoints_kept i o
     && schema_ok i o
     && (if wants_again i o                                        (* a real run that returned *)
         then superset i o && dst_only i o && nothing_else i o && differing_as_strategy i o && idempotent c
